@@ -171,4 +171,13 @@ TopId(shape) == IF shape \in {"ledger_v1", "ledger_v2"} THEN "L" ELSE "N"
 ByteChangeOk(ev) == /\ ~ev.panic
                     /\ ev.prepared => /\ ev.roundtrip
                                       /\ (ev.shape # "partial" => \E k \in DOMAIN ev.changed : ev.changed[k] = TopId(ev.shape))
+
+\* Non-canonical payloads at byte level (set-like fields with a duplicated element: child specifiers of a subintent /
+\* of the transaction intent core).  One identifier per content: a payload that can be prepared is canonical - it also
+\* decodes as the model and re-encoding the decoded model reproduces its bytes - ...
+NonCanonOk(ev) == /\ ~ev.panic
+                  /\ ev.prepared => (ev.decoded /\ ev.roundtrip)
+\* ... equivalently, preparation is injective on accepted payloads: two DIFFERENT payloads that both prepare never
+\* prepare to equal content (else one content would have two identifiers)
+PairOk(ev) == (ev.both_prepared /\ ~ev.same_bytes) => ~ev.same_content
 =============================================================================
